@@ -13,7 +13,7 @@ Inductive case :=
       (found : list pmatch)                                                      (* placements in the order the implementation found them *)
       (beads : list ibead) (iedges : list (Z * Z)) (iinters : list (Z * (list Z * Z)))
       (w_overlap w_unmapped : bool)
-| CDoMods (Ms : list mapping) (MMs : list modmap) (L : labelled)
+| CDoMods (fast : bool) (Ms : list mapping) (MMs : list modmap) (L : labelled)
       (found : list pmatch) (mfound : list (Z * list (Z * list (Z * Z))))          (* modification placements found: (index of the mapping, atom -> [(particle, weight)]) *)
       (no_cover : nat)                                                              (* warnings "Can't find modification mappings" *)
       (result : option (list ibead * list (Z * Z) * list (Z * (list Z * Z)) * bool * bool)).   (* None: ValueError *)
@@ -58,7 +58,7 @@ Definition expected_mod_matches (MMs : list modmap) (L : labelled) : list (list 
 
 Definition corr (k : case) : bool :=
   match k with
-  | CDoMods Ms MMs L found mfound no_cover result =>
+  | CDoMods _ Ms MMs L found mfound no_cover result =>
       sets_same (expected_mod_matches MMs L) (map snd mfound)
       && Nat.eqb (snd (needed L MMs)) no_cover
       && match do_mapping_mods (l_mol L) found (with_maps MMs mfound), result with
@@ -123,12 +123,12 @@ Definition find_bead (beads : list ibead) (k : Z) : option ibead := find (fun i 
 
 Definition prop (k : case) : bool :=
   match k with
-  | CDoMods Ms MMs L found mfound _ result =>
+  | CDoMods fast Ms MMs L found mfound _ result =>
       match result with
       | None =>
           (* an error is justified only if some modification placement refers to an existing particle whose name none of
              the particles of its atoms carries (judged from the block placements, without the merge loop) *)
-          let blocks := all_placements Ms (l_mol L) in
+          let blocks := all_placements_with fast Ms (l_mol L) in
           existsb (fun im =>
             match nth_mod MMs (fst im) with
             | None => true
@@ -143,12 +143,12 @@ Definition prop (k : case) : bool :=
                          (p_m2b pm)) blocks)) (mm_to M)
             end) mfound
       | Some (beads, iedges, iinters, wo, wu) =>
-          let covered := flat_map keys_of (all_placements Ms (l_mol L)) ++ flat_map (fun im => map fst (snd im)) mfound in
+          let covered := flat_map keys_of (all_placements_with fast Ms (l_mol L)) ++ flat_map (fun im => map fst (snd im)) mfound in
           (* no silent loss, modification placements included *)
           Bool.eqb wu (existsb (fun a => negb (a_isH a) && negb (zmem (a_key a) covered)) (atoms (l_mol L)))
           (* residues are still numbered consecutively in placement order: a particle whose first atom belongs to a block
              placement carries that placement's rank (one-residue blocks, distinct lowest keys, no atom used twice) *)
-          && (let all := all_placements Ms (l_mol L) in
+          && (let all := all_placements_with fast Ms (l_mol L) in
               let order := process_order all in
               if distinctZ (map min_key all)
                  && forallb (fun pm => forallb (fun n => Z.eqb (b_resid n) 1) (b_nodes (p_block pm))) all
